@@ -228,7 +228,8 @@ func c01one(t *testing.T, out *verifh.Out, r *rand.Rand, dir string) {
 		tree.Put("ha_nodes/"+h, mysql.NodeConfiguration{Priority: int64(r.Intn(3))})
 	}
 	// request
-	kind := r.Intn(6) // 0-1 to a host, 2 from master (planned), 3 automatic failover, 4 operator-forced failover, 5 worker (no transition)
+	kind := r.Intn(7) // 0-1 to a host, 2 from master (planned), 3 automatic failover, 4 operator-forced failover, 5 worker (no transition),
+	// 6 an automatic failover taken up again after the master key already moved: `from` is not the recorded master any more
 	sw := &Switchover{InitiatedBy: "op", InitiatedAt: time.Now()}
 	switch kind {
 	case 0, 1:
@@ -241,6 +242,8 @@ func c01one(t *testing.T, out *verifh.Out, r *rand.Rand, dir string) {
 		sw.From, sw.Cause, sw.MasterTransition = master, CauseManual, FailoverTransition
 	case 5:
 		sw.From, sw.Cause = master, CauseWorker
+	case 6:
+		sw.From, sw.Cause, sw.MasterTransition = hosts[1+r.Intn(n-1)], CauseAuto, FailoverTransition
 	}
 	tree.Put("switch", sw)
 	// node losses present from the start
